@@ -33,6 +33,9 @@ namespace Nstd.Future
 structure XState where
   s : State
   dead : List Tid := []
+  /-- repaired failure branch (fixes/future/0006) only: threads inside the handler
+      `{ Mutex::Guard guard(_mutex); --_threadCount; context->_terminated = true; }` with their handler pc and the context id -/
+  fixing : List (Tid × Nat × Nat) := []
 
 /-- thread `t` is about to call `Thread::start` for the context with id `k` -/
 def spawnIdx (s : State) (t : Tid) : Option Nat :=
@@ -87,6 +90,78 @@ def xrun (mask : Nat) : XState → List Tid → Option XState
   | x, t :: ts => match xmove mask x t with
     | some (x', _) => xrun mask x' ts
     | none => none
+
+/-! ### the REPAIRED failure branch (fixes/future/0006): the reservation is undone under the pool mutex
+
+  `if(!context->_thread.start(..)) { Mutex::Guard guard(_mutex); --_threadCount; context->_terminated = true; }`.
+  No thread record is created (the thread id is consumed, as in the scheduler of the harness); the creator runs the three handler
+  steps `0` = lock `_mutex` (scheduling point, blocks while the mutex is held), `1` = the two plain stores, `2` = unlock (scheduling
+  point), and only then returns from `run()`.  The handler's program counters are kept OUTSIDE `Frame` (list `fixing`), so `Model.lean`
+  and every theorem over `Reach` are untouched; runs without a refused creation are runs of `Reach`, step by step (`xfreach_reach_of_no_failure`).
+  The context stays in `_threads` as (`_terminated`, never started): the purge (`cleanAt`: erase without join) and the join loop of
+  `~ThreadPool` (`dJoin`: skip) of `Model.lean` already treat such a context the way `~Thread` / `Thread::join` do (`if(!thread) return`). -/
+
+def fixPcOf (x : XState) (t : Tid) : Option (Nat × Nat) := (x.fixing.find? (fun e => e.1 == t)).map (·.2)
+
+/-- `Thread::start` returns false (repaired code): the creator leaves `runSpStart`, the thread id is consumed, the handler starts -/
+def xfailFix (x : XState) (t : Tid) : Option (XState × List String) :=
+  if (fixPcOf x t).isSome then none else
+  match spawnIdx x.s t, x.s.threads t with
+  | some k, some th =>
+    some ({ x with s := { (setThread x.s t (th.cont [])) with nthreads := x.s.nthreads + 1 }, fixing := (t, 0, k) :: x.fixing },
+          [s!"E {t} create-failed t{x.s.nthreads}"])
+  | _, _ => none
+
+/-- can the handler of `t` take its next step? (only the lock can block) -/
+def xfixEnabled (x : XState) (t : Tid) : Bool :=
+  match fixPcOf x t, x.s.pool with
+  | some (0, _), some p => p.mOwner.isNone
+  | some _, some _ => true
+  | _, _ => false
+
+/-- one step of the failure handler -/
+def xfixStep (x : XState) (t : Tid) : Option (XState × List String) :=
+  match fixPcOf x t, x.s.pool with
+  | some (pc, k), some p =>
+    let setPc := fun (n : Nat) => x.fixing.map (fun e => if e.1 == t then (t, n, k) else e)
+    if pc = 0 then
+      if p.mOwner.isSome then none
+      else some ({ x with s := setPool x.s { p with mOwner := some t }, fixing := setPc 1 }, [opLine "lock" "pool.m" 0])
+    else if pc = 1 then
+      let ctxs' := p.ctxs.map (fun c => if c.id = k then { c with terminated := true } else c)
+      let p' : Pool := { p with threadCount := p.threadCount - 1, ctxs := ctxs' }
+      some ({ x with s := setPool x.s p', fixing := setPc 2 }, [])
+    else
+      some ({ x with s := setPool x.s { p with mOwner := none }, fixing := x.fixing.filter (fun e => e.1 != t) }, [opLine "unlock" "pool.m" 0])
+  | _, _ => none
+
+/-- an ordinary micro-step in the repaired system: not for a thread that is inside the failure handler -/
+def xstepF (x : XState) (t : Tid) : Option (XState × List String) :=
+  if (fixPcOf x t).isSome then none else xstep x t
+
+def xenabledF (x : XState) (t : Tid) : Bool :=
+  if (fixPcOf x t).isSome then xfixEnabled x t else enabled x.s t
+
+/-- all runs of the REPAIRED pool with failing thread creations -/
+inductive XReachFix (cfg : Config) : XState → Prop where
+  | init : XReachFix cfg { s := State.init cfg }
+  | step {x x' : XState} {o : List String} (t : Tid) : XReachFix cfg x → xstepF x t = some (x', o) → XReachFix cfg x'
+  | fail {x x' : XState} {o : List String} (t : Tid) : XReachFix cfg x → xfailFix x t = some (x', o) → XReachFix cfg x'
+  | fix {x x' : XState} {o : List String} (t : Tid) : XReachFix cfg x → xfixStep x t = some (x', o) → XReachFix cfg x'
+
+def xmoveFix (mask : Nat) (x : XState) (t : Tid) : Option (XState × List String) :=
+  if (fixPcOf x t).isSome then xfixStep x t else
+  match spawnIdx x.s t with
+  | some _ => if mask.testBit (workerCreations x.s) then xfailFix x t else xstepF x t
+  | none => xstepF x t
+
+def xrunFix (mask : Nat) : XState → List Tid → Option XState
+  | x, [] => some x
+  | x, t :: ts => match xmoveFix mask x t with
+    | some (x', _) => xrunFix mask x' ts
+    | none => none
+
+def xAllBlockedF (x : XState) : Bool := (List.range x.s.nthreads).all (fun t => !xenabledF x t)
 
 /-- no thread that exists can take a step -/
 def xAllBlocked (x : XState) : Bool := (List.range x.s.nthreads).all (fun t => !xenabled x t)
